@@ -387,7 +387,7 @@ def fam_e2e_bad(sess):
                 return
             if not box.get('bad'):
                 box['bad'] = True; sess.inconclusive(nm, str(out)[:300], fam)
-        n, complete = ex.explore(runp, on_path, time_budget=120)
+        n, complete = ex.explore(runp, on_path, time_budget=240)
         if not complete:
             sess.inconclusive('%s `%s`' % (fam, text), 'time budget exceeded after %d paths' % n, fam)
         elif not box.get('viol') and not box.get('bad'):
